@@ -82,6 +82,7 @@ static void mode_c0102(const Args &a, bool c02) {
         GenOpts o; o.max_n = max_n; o.int_only = use_int; o.tie_bias = c02 ? 0.6 : 0.4; o.allow_degenerate = true;
         GraphSpec s;
         if (!a.replay.empty()) { std::ifstream in(a.replay); if (!parse_spec(in, s)) { emit_harness_failure("cannot parse replay spec"); exit(2); } use_int = a.gets("wtype", "double") == "int"; }
+        else if (a.geti("large", 1) && r.chance(0.01)) s = gen_large_distinct(r);
         else s = gen_graph(r, o);
         CaseOut co(i);
         int dim = cycle_space_dim(s);
